@@ -101,9 +101,14 @@ CHECKS = {
         text="Closure, preservation of untouched attributes and non-interference with the source are decided after each observed operation of sequences applied repeatedly to the same source and chained on results.",
         note="Expected visibility results follow the transform's docstring; operations that would yield an invalid schema may be refused with a schema error.",
         design="4/C14"),
+    "C20": dict(
+        technique="runtime monitor on diff_schema over generated (schema, edited schema) pairs: change multisets are checked for naming every elementary edit, for soundness of 'no breaking change' against an independent variance model and by re-validating operations that were valid on the old schema, for emptiness on equal / reordered pairs, and for equality across PYTHONHASHSEED values in subprocesses and across type orderings",
+        text="Each observed diff is decided by the edit labels and by refvariance (covariant outputs, contravariant inputs through lists, removals, new required inputs); independence from hash ordering is observed by re-running the same seeded pairs under other hash seeds.",
+        note="Two mechanisms are listed known findings (compatible retypings are not reported at all; a non-null input losing its default is only DANGEROUS).",
+        design="4/C20"),
 }
 
-PENDING_REASON = "check not built yet in this session (planned: see DESIGN.md section 4); no claim is made"
+PENDING_REASON = "not claimed"
 
 
 def main():
